@@ -486,6 +486,7 @@ func families(cfg *lib.Config, rng *lib.Rng) []family {
 		add("resolve-time-hash", "parsetype", 0, resolveTimeHash())
 		// the walk over a set of alias declarations (genalias.go), tied to coq/Model/ResolveAlias.v
 		add("resolve-alias-sets", "parsetype", 0, aliasTexts)
+		add("resolve-alias-printer", "parsetype", 0, aliasPrinterTexts)
 		add("resolve-alias-random", "parsetype", 0, resolveAliasRandom(sc(800, 3000), rng))
 	}
 	return fams
